@@ -9,7 +9,7 @@ def decodeOffset : SExp → Option Offset
   | .atom "min" => some .min
   | x => (asInt x).map .int
 
-/-- `(complete <offset> (<aam|_> …) [<impl out: (int …)>])` /
+/-- `(complete <offset> (<aam|_> …) [<impl out: (int|_ …) | (raised K)>])` /
     `(initialize <offset> ((id aam|_) …) [<impl: ((aam|_ …) raised)>])` -/
 def handle : List SExp → Option SExp
   | .atom "complete" :: o :: nodes :: rest => do
@@ -17,10 +17,16 @@ def handle : List SExp → Option SExp
       let nodes ← asList (asOpt asInt) nodes
       let model := completeAam o nodes
       let specModel := specCheck o nodes model
+      -- an implementation exception (`(raised <Kind>)`: complete_aam must not refuse any input of the domain) and
+      -- an output in which a node is left WITHOUT a number (`_`: "every node carries a map number afterwards")
+      -- are failures of the specification, not decode errors
       let specImpl ← match rest with
+        | [.list [.atom "raised", .atom _]] => pure (ofBool false)
         | [impl] => do
-            let out ← asList asInt impl
-            pure (ofBool (specCheck o nodes out))
+            let out ← asList (asOpt asInt) impl
+            pure (ofBool (match out.mapM id with
+              | some ints => specCheck o nodes ints
+              | none => false))
         | _ => pure none'
       pure (.list [.atom "ok", ofList ofInt model, ofBool specModel, specImpl])
   | .atom "initialize" :: off :: nodes :: rest => do
@@ -31,6 +37,7 @@ def handle : List SExp → Option SExp
         SExp.list [ofList (ofOpt ofInt) r.1, ofBool r.2]
       -- the statement for initialise is functional: the model *is* the spec
       let specImpl ← match rest with
+        | [.list [.atom "raised", .atom _]] => pure (ofBool false)   -- any exception other than the documented refusal
         | [impl] => do
             let r ← asPair (asList (asOpt asInt)) asBool impl
             pure (ofBool (r.1 == out && r.2 == raised))
